@@ -52,7 +52,7 @@ package netflow5
 //@   ensures 48*flowCount > old(len(d.reader.data)) ==> err != nil && msg.Flows == old(msg.Flows)
 //@   ensures msg.Header == old(msg.Header) && msg.AgentID == old(msg.AgentID)
 //@   modifies d.reader.data, d.reader.count, msg.Flows
-//@   loop 1 @ for err == nil && flowIndex < flowCount
+//@   loop 1 @ for err == nil && flowIndex < flowCount #2cc43828
 //@     invariant d.reader != nil && inv(d.reader) && d.reader.base == old(d.reader.base) && msg != nil && d.raddr == old(d.raddr)
 //@     invariant msg.Header == old(msg.Header) && msg.AgentID == old(msg.AgentID)
 //@     invariant 0 <= flowIndex && flowIndex <= flowCount
@@ -80,7 +80,7 @@ package netflow5
 //@   requires forall i :: 0 <= i && i < len(errorSlice) ==> errorSlice[i] != nil
 //@   ensures len(errorSlice) == 0 ==> err == nil
 //@   ensures len(errorSlice) > 0 ==> err != nil
-//@   loop 1 @ range errorSlice
+//@   loop 1 @ range errorSlice #7a351ce4
 //@     invariant true
 
 // ---- JSON encoding (C05, C08) ------------------------------------------------------------------------
@@ -153,7 +153,7 @@ package netflow5
 //@   requires b != nil && jsKey5(b.js, 1) && b.js.Ph == 3
 //@   ensures err == nil ==> b.js == jsset(old(b.js), 5)
 //@   modifies b
-//@   loop 1 @ range m.Flows
+//@   loop 1 @ range m.Flows #79575a31
 //@     invariant b != nil && fLength == len(m.Flows) && err == nil
 //@     invariant b.js == jsset(pre(b.js), range_i == 0 ? 1 : (range_i < len(m.Flows) ? 0 : 5)) && pre(b.js).Dp == 2 && jstop(pre(b.js)) == 2 && jscanon(pre(b.js))
 
